@@ -174,3 +174,47 @@ def _splice(b, bb, g):
     b.setdefault("inl_rets", []).append(lo)
     for x in g.get("inl_rets", []):
         b["inl_rets"].append(x + lo)
+
+
+def view(crate, key, helper_keys):
+    """Body of function `key` with the named (reviewed) helpers spliced in at their direct call sites - the form a rule is written
+    against when it must hold no matter whether the helper exists as a function or was inlined by hand.  Returns None if `key`
+    has no body; returns the plain body when none of the helpers exists any more."""
+    from facts import Body
+    cache = crate.__dict__.setdefault("_views", {})
+    ck = (key, tuple(helper_keys))
+    if ck in cache:
+        return cache[ck]
+    base = None
+    for b in crate.bodies:
+        if b.key == key:
+            base = b
+            break
+    if base is None:
+        cache[ck] = None
+        return None
+    helpers = {}
+    for b in crate.bodies:
+        if b.key in helper_keys and b.kind in ("Fn", "AssocFn"):
+            helpers.setdefault(b.key, b.d)
+    if not helpers:
+        cache[ck] = base
+        return base
+    d = copy.deepcopy(base.d)
+    changed = False
+    for _ in range(4):
+        hit = False
+        for i in range(len(d["blocks"])):
+            t = d["blocks"][i]["term"]
+            if t["k"] == "call" and t.get("f") and not d["blocks"][i].get("cleanup"):
+                for ck2 in _callee_keys(t["f"]):
+                    g = helpers.get(ck2)
+                    if g is not None and len(t["args"]) == g["arg_count"]:
+                        _splice(d, i, g)
+                        hit = changed = True
+                        break
+        if not hit:
+            break
+    out = Body(d, crate) if changed else base
+    cache[ck] = out
+    return out
